@@ -43,7 +43,7 @@ try:
         tests = re.findall(r"^func (Test\w+)\(", src, re.M)
         target = os.path.join(WT, pkgdir[pk], "zz_seed_" + re.sub(r"\W", "_", d[:-3]) + "_test.go")
         shutil.copy(os.path.join(seed, d), target)
-        race = "-race" if ("-race" in open(os.path.join(seed, "README.md")).read() and pid == "C03" and name.endswith("a")) else ""
+        race = "-race" if (os.environ.get("FORCE_RACE") or ("-race" in open(os.path.join(seed, "README.md")).read() and pid == "C03" and name.endswith("a"))) else ""
         cmd = f"go test {race} -vet=off -count=1 -timeout 300s -run '^({'|'.join(tests)})$' ."
         rc1, out1 = sh(cmd, os.path.dirname(target))
         results.append({"demo": d, "dir": pkgdir[pk], "cmd": cmd, "fails_with_patch": rc1 != 0, "with_patch_tail": out1[-600:]})
